@@ -279,6 +279,10 @@ class ScenarioGen:
         for j, lid in enumerate(ids):
             m = r.choice([2, 3, 5])
             x0, y0 = self.real(), self.real()
+            if self.i % 8 == 7:
+                # map-projection (UTM-like) coordinates: relative tolerances become metres there
+                x0, y0 = 692000.0 + round(x0, 3), 5330000.0 + round(y0, 3)
+                self.feat("lanelet.utm-scale-coordinates")
             xs = [x0 + 4.0 * k + (self.frac() if self.hostile else 0) for k in range(m)]
             ys = [y0 + 0.25 * k * k for k in range(m)]
             w = 3.0 + self.frac()
@@ -345,7 +349,14 @@ class ScenarioGen:
             refs = set(r.sample(lids, r.randint(1, min(2, len(lids)))))
             virtual = self.cyc([True, False])
             self.feat("sign.virtual.%s" % virtual)
-            net.add_traffic_sign(TrafficSign(sid, els, set(refs) if self.fmt == "pb" else set(), self.pos(), virtual), refs)
+            # first occurrences (protobuf only): usually the referencing lanelets, but any lanelets of the network may be
+            # named there, also ones that do not reference the sign themselves
+            fo = set()
+            if self.fmt == "pb":
+                fo = set(refs) if self.cyc([True, False]) else set(r.sample(lids, r.randint(1, len(lids))))
+                if fo - set(refs):
+                    self.feat("sign.first-occurrence-on-non-referencing-lanelet")
+            net.add_traffic_sign(TrafficSign(sid, els, fo, self.pos(), virtual), refs)
         colors = expressible(TrafficLightState, self.fmt, "trafficLightColor", "TrafficLightState")
         dirs = expressible(TrafficLightDirection, self.fmt, "direction", "TrafficLightDirection")
         for _ in range(r.randint(0, 2)):
@@ -370,7 +381,16 @@ class ScenarioGen:
                     (None if kind == "none-refs" else set())
                 lr = set(r.sample(sorted(la.traffic_lights), r.randint(0, len(la.traffic_lights)))) if kind == "refs" else \
                     (None if kind == "none-refs" else set())
-                la.stop_line = StopLine(self.pos(), self.pos(), self.cyc(marks), sr, lr)
+                where = self.cyc(["anywhere", "at-lanelet-end", "near-lanelet-end", "anywhere"])
+                if where == "anywhere" or la.left_vertices.shape[1] != 2:
+                    p0, p1 = self.pos(), self.pos()
+                elif where == "at-lanelet-end":
+                    p0, p1 = la.left_vertices[-1].copy(), la.right_vertices[-1].copy()
+                else:  # a metre and a half before the end of the lanelet
+                    p0 = la.left_vertices[-1] - np.array([1.5, 0.0])
+                    p1 = la.right_vertices[-1] - np.array([1.5, 0.0])
+                self.feat("stopline." + where)
+                la.stop_line = StopLine(p0, p1, self.cyc(marks), sr, lr)
                 self.feat("stopline." + kind)
         for _ in range(r.randint(0, 2)):
             incs = []
